@@ -1,6 +1,7 @@
 package varlink
 
 import (
+	"errors"
 	"io"
 	"net"
 	"os"
@@ -36,11 +37,24 @@ func (p PipeCon) SetDeadline(t time.Time) error {
 	panic("implement me")
 }
 
+// SetReadDeadline forwards the deadline to the read end of the pipe, so that a
+// blocked Read can be interrupted. Pipes that cannot do deadlines are left alone.
 func (p PipeCon) SetReadDeadline(t time.Time) error {
+	if d, ok := p.reader.(interface{ SetReadDeadline(time.Time) error }); ok {
+		if err := d.SetReadDeadline(t); err != nil && !errors.Is(err, os.ErrNoDeadline) {
+			return err
+		}
+	}
 	return nil
 }
 
+// SetWriteDeadline forwards the deadline to the write end of the pipe.
 func (p PipeCon) SetWriteDeadline(t time.Time) error {
+	if d, ok := p.writer.(interface{ SetWriteDeadline(time.Time) error }); ok {
+		if err := d.SetWriteDeadline(t); err != nil && !errors.Is(err, os.ErrNoDeadline) {
+			return err
+		}
+	}
 	return nil
 }
 
